@@ -1,7 +1,7 @@
 (* C19 - Instrument names, views and scope rules select exactly what they describe.
    Every theorem is about the executable model coq/C19/Model.v (tied to the C++ by the differential run of ./check C19);
    constants (regex literals, the no-op logger's name) come from Gen/Consts.v, regenerated from /repo on every run. *)
-From V Require Import C19.Glue C19.ProofsBase C19.ProofsNames C19.ProofsViews C19.ProofsScopes C19.ProofsLoggers C19.ProofsMeters C19.ProofsMeets C19.ProofsWire.
+From V Require Import C19.Glue C19.ProofsBase C19.ProofsNames C19.ProofsViews C19.ProofsScopes C19.ProofsLoggers C19.ProofsMeters C19.ProofsMeets C19.ProofsWire C19.ProofsLts.
 Local Open Scope N_scope.
 
 (* ---- "an instrument is created for exactly the names of the form letter followed by up to 254 letters, digits, _ . - /" -
@@ -199,8 +199,63 @@ Theorem concurrent_requests_model_meets_spec : forall kind r d threads, prace_go
 Proof. exact model_meets_spec_prace. Qed.
 Print Assumptions concurrent_requests_model_meets_spec.
 
+(* ---- ALL interleavings, at lock granularity (C19/Lts.v): any number of threads, each running a script of Get* requests on one
+   provider; a call is PCall, PLock (the whole critical section: lookup, and if absent configurator + construction + push_back,
+   i.e. one step of the sequential provider model), PUnlock, PRet; [accept] takes an event iff it is that thread's next one and
+   the lock discipline / returned instance agree with the shared state; [reachable] = after any accepted trace.
+   Outside: data races inside the critical section, weak memory, configurator code that re-enters the provider. *)
+(* linearization: the registry is the sequential registry applied to the requests in lock-acquisition order *)
+Theorem interleavings_linearize : forall kind r d scripts st, reqs_good kind (concat scripts) -> reachable kind r d scripts st ->
+  p_prov st = pfold kind r d (p_lin st) /\ (forall q, In q (p_lin st) -> In q (concat scripts)).
+Proof. exact lts_linearization. Qed.
+Print Assumptions interleavings_linearize.
+
+(* the registry never holds two instances that answer one request (name, version, schema URL, attributes as a map) *)
+Theorem interleavings_never_duplicate : forall kind r d scripts st q, reqs_good kind (concat scripts) -> reachable kind r d scripts st ->
+  (pmatching (p_prov st) q <= 1)%nat.
+Proof. exact lts_registry_unique. Qed.
+Print Assumptions interleavings_never_duplicate.
+
+(* when every thread has finished, each call holds the instance numbered by the first request of its identity in lock order ... *)
+Theorem interleavings_handles : forall kind r d scripts st, reqs_good kind (concat scripts) -> reachable kind r d scripts st ->
+  complete st = true ->
+  Forall2 (fun script th => th_done th = map (fun q => fp q (p_lin st)) script /\ forall q, In q script -> In q (p_lin st))
+          scripts (p_thr st).
+Proof. exact lts_handles. Qed.
+Print Assumptions interleavings_handles.
+
+(* ... so two calls - of whichever threads, in whatever order - hold the same instance iff their identities are equal, and the
+   instance has the requested scope and attributes and is enabled exactly when the configurator says so *)
+Theorem same_instance_iff_same_identity : forall q1 q2 lin, In q1 lin -> In q2 lin ->
+  (fp q1 lin = fp q2 lin <-> lreq_eqb q1 q2 = true).
+Proof. exact fp_iff. Qed.
+Print Assumptions same_instance_iff_same_identity.
+
+Theorem instance_is_the_requested_one : forall kind r d qs q, reqs_good kind qs -> In q qs ->
+  exists en sc at', pentry (pfold kind r d qs) (fp q qs) = Some (en, sc, at') /\
+                    en = compute_config r d (q_scope q) /\ sc = q_scope q /\ attrs_equiv at' (q_attrs q) = true.
+Proof. exact pentry_spec. Qed.
+Print Assumptions instance_is_the_requested_one.
+
+(* hence: EVERY accepted complete trace of a PRACE case passes the SPEC that ./check evaluates on the implementation *)
+Theorem accepted_trace_meets_spec_prace : forall kind r d threads tr st,
+  prace_good kind threads ->
+  accept_all r d (pst0 kind (prace_scripts threads)) tr 0 = inl st -> complete st = true ->
+  exists hs, psummary st = Some hs /\ spec_prace r d threads hs = [].
+Proof. exact accepted_trace_meets_spec_prace_lemma. Qed.
+Print Assumptions accepted_trace_meets_spec_prace.
+
+Theorem accepted_trace_wire : forall kind r d threads tr evs st,
+  prace_good kind threads -> parse_ptrace tr = Some evs ->
+  accept_all r d (pst0 kind (prace_scripts threads)) evs 0 = inl st -> complete st = true ->
+  exists hs, run_prace_trace kind r d threads tr = flat_map print_hobs hs /\
+             parse_prace_obs (flat_map print_hobs hs) = Some hs /\ spec_prace r d threads hs = [].
+Proof. exact accepted_trace_wire_lemma. Qed.
+Print Assumptions accepted_trace_wire.
+
 (* the same, for the two extracted entry points as ./check composes them: the observation [run_model] prints parses back,
    and [run_spec] finds no failed clause in it *)
-Theorem model_meets_spec_wire : forall l c, parse_case l = Some c -> case_good c -> run_spec l (run_model l) = [].
+Theorem model_meets_spec_wire : forall l0 l c, split_trace l0 = (l, None) -> parse_case l = Some c -> case_good c ->
+  run_spec l0 (run_model l0) = [].
 Proof. exact model_meets_spec_wire_lemma. Qed.
 Print Assumptions model_meets_spec_wire.
